@@ -1,7 +1,7 @@
 """C07 - pairwise-distance chunks partition the work and assemble to the same matrix."""
 import ast
 
-from engine.astutil import stmt_conditions, U, calls, kwargs, single_defs, inline, walk_own, call_name, attr_tail, returns, enclosing_map, names_in, arg
+from engine.astutil import stmt_conditions, U, calls, kwargs, single_defs, inline, walk_own, call_name, attr_tail, returns, enclosing_map, names_in, arg, argv
 from engine.cfg import CFG
 from engine.norm import Norm, Poly, parse_expr
 from engine.repo import AnalysisError
@@ -177,7 +177,7 @@ def r1(ctx):
     else:
         cons = [c for st in rest for c in calls(st) if U(c.func) == "consume"]
         ctx.need(len(cons) == 1, f"{f.site()}: consume(g, start) not found")
-        start_e, count_e = cons[0].args[1], isl.args[1]
+        start_e, count_e = argv(cons[0])[1], isl.args[1]
     Nn = Norm(strict=False)
     q, r, Nn_idx = Poly.atom(("var", "q")), Poly.atom(("var", "r")), Poly.atom(("var", "N"))
 
